@@ -48,13 +48,19 @@ RULE = (
     "Dirichlet, HMC with diagonal or dense mass matrix) x adaptors (AdaptiveStepSize +-acceptance rate, DualAveragingStepSize, "
     "MassMatrixAdaptor +-regularize / swap_every / variance_window / restart) x weights, acceptance windows, disable_adaptation, dtype, logger; "
     "plus the interruption epoch N (a multiple of the checkpoint frequency), the final epoch T and the torch seed. "
+    "Sub-check 'stages': 2-3 such algorithms (any mix) in ONE configuration, identifiers prefixed per stage, each with its own checkpoint file and frequency, "
+    "optionally a later stage's prior centred on an earlier stage's parameter; the run dies in a drawn stage j at a checkpoint; main() is restarted with a drawn subset and order "
+    "of the available -c files; per stage the restored state, every later checkpoint and the final state must equal the uninterrupted run (a stage without -c file starts afresh, "
+    "a completed stage must have nothing left to do). "
     "Sub-check 'roundtrip': run to N, restart with --dry -c, compare live state. 'trajectory': additionally full run to T vs resumed run, "
     "compared at every checkpoint after N. 'grid': every optimiser x every scheduler once, every adaptor set x mass matrix form once, and long runs that restart "
     "in the middle of a variance window / between two estimator swaps (enumerated). "
-    "Non-trivial = N >= 2 (moments / counters non-zero) and at least one scheduler or adaptor (for MCMC: an adapting operator); for 'trajectory' also T > N. "
-    "Distinct = the whole configuration without seed and initial values."
+    "'grid' also holds three fixed multi-stage analyses x every order of their -c files x linked or not. Non-trivial = N >= 2 (moments / counters non-zero) and at least one scheduler or adaptor (for MCMC: an adapting operator); for 'trajectory' also T > N. "
+    "For 'stages': at least two -c files and a non-trivial restarted stage. Distinct = the whole configuration without seed and initial values."
 )
 ASSUMPTIONS = [
+    "in 'stages' the generator state of the uninterrupted run at the corresponding point (run() entry for a stage that starts afresh, the checkpoint for a stage that resumes) is "
+    "restored at every stage's run(); a multi-stage analysis whose uninterrupted run ends in MCMC.run's ZeroDivisionError summary is dropped; the GMRF block operator is not used in 'stages' (taxon names would clash)",
     "the random stream is not part of a checkpoint and the property does not promise it: for the trajectory comparison the harness captures "
     "torch's generator state when the checkpoint at N is written and restores it when the resumed run() starts; the comparison is then exact (bitwise)",
     "tuple vs list (e.g. Adam betas after JSON) is not reported: only values, dict key types, tensor dtypes / shapes / nn-ness and scalar types are compared",
@@ -467,7 +473,10 @@ def _alg_classes():
     return Optimizer, MCMC
 
 
-def run_main(argv, on_save=None, on_run=None):
+LAST_RUN = {}  # flags of the most recent run_main (summary_zero_division, stopped)
+
+
+def run_main(argv, on_save=None, on_run=None, on_done=None):
     """torchtree.torchtree.main() with the given command line; returns (registry of objects, error messages
     logged).  The harness wraps, for the duration of the call only: process_objects as seen by main (to get the
     registry), save_full_state and run of Optimizer / MCMC (to observe / to restore the random stream)."""
@@ -501,7 +510,10 @@ def run_main(argv, on_save=None, on_run=None):
         def run(self, *a, **k):
             if on_run is not None:
                 on_run(self)
-            return orig(self, *a, **k)
+            r = orig(self, *a, **k)
+            if on_done is not None:
+                on_done(self)
+            return r
 
         return run
 
@@ -538,6 +550,8 @@ def run_main(argv, on_save=None, on_run=None):
             signal.signal(signal.SIGINT, old_sig)
         except Exception:  # noqa
             pass
+    LAST_RUN.clear()
+    LAST_RUN.update({k: v for k, v in reg.items() if k != "dic"})
     return reg.get("dic", {}), handler.records
 
 
@@ -786,6 +800,8 @@ def argv_of(c, config, extra=()):
 
 # =========================================================================== tags, keys, triviality
 def tags_of(c):
+    if c["alg"] == "stages":
+        return {"alg": "stages", "stage_kinds": [st_["alg"] for st_ in c["stages"]], "n_files": len(c["files"])}
     if c["alg"] == "opt":
         return {"alg": "Optimizer", "optim": c["optim"]["name"], "sched": (c.get("sched") or {}).get("name", "none"), "target": c["target"]}
     ops = sorted({o["type"] for o in c["ops"]})
@@ -799,11 +815,12 @@ def key_of(c, sub):
     import copy
 
     k = copy.deepcopy(c)
-    k.pop("torch_seed", None)
-    for p in k.get("params", []):
-        p.pop("values", None)
-    for o in k.get("ops", []):
-        o.pop("values", None)
+    for x in [k] + k.get("stages", []):
+        x.pop("torch_seed", None)
+        for p in x.get("params", []):
+            p.pop("values", None)
+        for o in x.get("ops", []):
+            o.pop("values", None)
     return [sub, k]
 
 
@@ -824,6 +841,10 @@ def nontrivial(c, need_continue):
 
 
 def labels_of(c):
+    if c["alg"] == "stages":
+        fl_ = c["files"]
+        return ("stages=%d" % len(c["stages"]), "kinds=" + "+".join(st_["alg"] for st_ in c["stages"]), "interrupted_stage=%d" % c["j"],
+                "files=%d/%d" % (len(fl_), c["j"] + 1), "order=" + ("config" if fl_ == sorted(fl_) else "permuted"), "linked" if c.get("link") else "independent")
     if c["alg"] == "opt":
         dts = sorted({p.get("dtype") or "default" for p in c["params"]})
         return ("opt", "optim=" + c["optim"]["name"], "sched=" + (c.get("sched") or {}).get("name", "none"), "target=" + c["target"],
@@ -914,9 +935,9 @@ def _frame_cls(exc):
     return found or "?"
 
 
-def _check_epoch(res, c, epoch_after, n_done):
+def _check_epoch(res, c, epoch_after, n_done, alg=None):
     """the restarted object must be about to run epoch n_done+1; returns True when the state is usable"""
-    alg = tags_of(c)["alg"]
+    alg = alg or tags_of(c)["alg"]
     if epoch_after == n_done + 1:
         return True
     if epoch_after == n_done:
@@ -1037,6 +1058,234 @@ def body_trajectory(c):
                                         "note": "the restored state compared equal to the saved state"}, bucket=tags_of(c)["alg"])
                 break
         res.labels = tuple(res.labels) + ("trajectory_compared",)
+    return res
+
+
+# =========================================================================== several algorithms in one configuration
+_NOT_IDS = {"type", "distribution", "transform", "algorithm", "scheduler", "checkpoint", "file_name", "lr_lambda", "dtype", "line_search_fn", "newick"}
+
+
+def _ids(x, out):
+    if isinstance(x, dict):
+        if isinstance(x.get("id"), str):
+            out.add(x["id"])
+        for v in x.values():
+            _ids(v, out)
+    elif isinstance(x, list):
+        for v in x:
+            _ids(v, out)
+    return out
+
+
+def _prefixed(x, ids, pre, key=None):
+    """the same specification with every identifier (definition and reference) prefixed"""
+    if isinstance(x, dict):
+        d = {k: _prefixed(v, ids, pre, k) for k, v in x.items()}
+        if "file_name" in d:
+            d["file_name"] = pre + d["file_name"]
+        return d
+    if isinstance(x, list):
+        return [_prefixed(v, ids, pre, key) for v in x]
+    if isinstance(x, str) and key not in _NOT_IDS and x in ids:
+        return pre + x
+    return x
+
+
+def _stage_iterations(c, upto=None):
+    """iterations per stage of the uninterrupted run (upto=None) or of the run that dies in stage j at its epoch N"""
+    its = [st_["T"] for st_ in c["stages"]]
+    if upto is not None:
+        its = its[: upto + 1]
+        its[upto] = c["stages"][upto]["N"]
+    return its
+
+
+def _link_target(cs, pre):
+    """a length-1 real parameter of a stage that later stages may use as the centre of a prior"""
+    if cs["alg"] == "opt" and cs["target"] == "joint":
+        for k, p in enumerate(cs["params"]):
+            if p["kind"] == "real" and len(p["values"]) == 1:
+                return "%sp%d" % (pre, k)
+    if cs["alg"] == "mcmc":
+        for k, o in enumerate(cs["ops"]):
+            if o["type"] == "slide" and len(o["values"]) == 1:
+                return "%sy%d" % (pre, k)
+    return None
+
+
+def _set_link(spec, target):
+    def walk(x):
+        if isinstance(x, dict):
+            if x.get("type") == "Distribution" and str(x.get("distribution", "")).endswith(".Normal") and isinstance(x.get("parameters", {}).get("loc"), list):
+                x["parameters"]["loc"] = target
+                return True
+            return any(walk(v) for v in x.values())
+        if isinstance(x, list):
+            return any(walk(v) for v in x)
+        return False
+
+    return walk(spec)
+
+
+def stages_config(c, upto=None):
+    its = _stage_iterations(c, upto)
+    spec, target = [], None
+    for i, it in enumerate(its):
+        cs = c["stages"][i]
+        one = config_of(cs, it)
+        pre = "s%d." % i
+        one = _prefixed(one, _ids(one, set()), pre)
+        if c.get("link") and target is not None:
+            _set_link(one, target)
+        target = _link_target(cs, pre) or target
+        spec += one
+    return spec
+
+
+def stage_alg_id(c, i):
+    return "s%d.%s" % (i, ALG_ID[c["stages"][i]["alg"]])
+
+
+def _plain_run(c, config, what, **hooks):
+    try:
+        dic, errs = run_main(argv_of(c, config), **hooks)
+    except Exception as e:  # noqa
+        if impl_frame(e) is None:
+            raise
+        raise Discard("%s:%s" % (type(e).__name__, (impl_frame(e) or "?").split(":")[-1])) from None
+    if errs:
+        raise HarnessProblem("%s logged errors: %s" % (what, errs[:3]))
+    return dic
+
+
+@_discardable
+def body_stages(c):
+    torch.manual_seed(c["torch_seed"])
+    st_all, j, files = c["stages"], c["j"], list(c["files"])
+    n = len(st_all)
+    ids = [stage_alg_id(c, i) for i in range(n)]
+    stage_of = {a: i for i, a in enumerate(ids)}
+    algname = {"opt": "Optimizer", "mcmc": "MCMC"}
+    res = Res(nontrivial=False, key=key_of(c, "stages"), labels=labels_of(c), tags=tags_of(c))
+    with workdir() as d:
+        # ---- uninterrupted run of all stages
+        os.mkdir("full")
+        os.chdir("full")
+        _write("run.json", stages_config(c))
+        snaps = {a: {} for a in ids}
+        count = {a: 0 for a in ids}
+
+        def u_run(alg):
+            snaps[alg.id][0] = snapshot(alg)
+
+        def u_save(alg):
+            count[alg.id] += 1
+            snaps[alg.id][count[alg.id] * st_all[stage_of[alg.id]]["f"]] = snapshot(alg)
+
+        def u_done(alg):
+            snaps[alg.id]["end"] = snapshot(alg)
+
+        _plain_run(c, "run.json", "uninterrupted run", on_run=u_run, on_save=u_save, on_done=u_done)
+        if LAST_RUN.get("summary_zero_division"):
+            # MCMC.run's summary (ZeroDivisionError for an operator never drawn) ends the whole analysis: nothing to restart
+            raise Discard("ZeroDivisionError:run")
+        os.chdir(d)
+        for i, a in enumerate(ids):
+            if count[a] != st_all[i]["T"] // st_all[i]["f"] or "end" not in snaps[a]:
+                raise HarnessProblem("uninterrupted run, stage %d: %d checkpoints, expected %d" % (i, count[a], st_all[i]["T"] // st_all[i]["f"]))
+        # ---- the run that dies in stage j right after its checkpoint at epoch N
+        _write("run.json", stages_config(c, upto=j))
+        part = {a: [] for a in ids}
+        _plain_run(c, "run.json", "interrupted run", on_save=lambda alg: part[alg.id].append(snapshot(alg)))
+        done = {}  # stage -> epoch of the checkpoint it left behind
+        for i in range(j + 1):
+            f = st_all[i]["f"]
+            done[i] = (st_all[i]["N"] if i == j else st_all[i]["T"]) // f * f
+            if len(part[ids[i]]) != done[i] // f:
+                raise HarnessProblem("interrupted run, stage %d: %d checkpoints, expected %d" % (i, len(part[ids[i]]), done[i] // f))
+            dd = []
+            compare(snaps[ids[i]][done[i]], part[ids[i]][-1], lambda kind, detail, **t: dd.append((kind, detail)), restart=False)
+            if dd:
+                raise HarnessProblem("two executions of the same configuration and seed differ (stage %d): %s" % (i, dd[:2]))
+        # ---- restart with the drawn -c files in the drawn order
+        _write("resume.json", stages_config(c))
+        start = {i: (done[i] if i in files else 0) for i in range(n)}
+        extra = []
+        for i in files:
+            ck = ck_file(st_all[i], done[i])
+            if not os.path.exists(ck):
+                raise HarnessProblem("checkpoint file %s of stage %d was not written" % (ck, i))
+            extra += ["-c", ck]
+        resumed = {a: [] for a in ids}
+        seen, ended = {}, {}
+
+        def r_run(alg):
+            i = stage_of[alg.id]
+            ref = snaps[alg.id][start[i]]
+            snap = snapshot(alg)
+            seen[i] = True
+            info = {"stage": i, "of": n, "files": ["stage%d" % k for k in files]}
+            add = lambda kind, detail, **t: res.fail(kind, dict(detail, **info), **t)  # noqa
+            n0 = len(res.fails)
+            if start[i] == 0:
+                if alg._epoch != 1:
+                    res.fail("iteration", dict(info, what="no checkpoint was given for this stage", restarted_run_starts_with_epoch=alg._epoch, expected=1),
+                             bucket=algname[st_all[i]["alg"]])
+            else:
+                ok = _check_epoch(res, c, alg._epoch, start[i], alg=algname[st_all[i]["alg"]])
+                if res.fails[n0:]:
+                    res.fails[-1].detail.update(info)
+                if ok and alg._epoch != start[i] + 1:
+                    alg._epoch = start[i] + 1
+            compare(ref, snap, add, restart=start[i] > 0)
+            if len(res.fails) > n0 or (start[i] > 0 and ref.get("torch_casts_state")):
+                seen["stop"] = "state_lost" if len(res.fails) > n0 else "torch_casts_state"
+                raise _StopRun()
+            torch.set_rng_state(ref["rng"])
+
+        def r_done(alg):
+            ended[stage_of[alg.id]] = snapshot(alg)
+
+        argv = argv_of(c, "resume.json", extra)
+        try:
+            dic, errs = run_main(argv, on_run=r_run, on_save=lambda alg: resumed[alg.id].append(snapshot(alg)), on_done=r_done)
+        except Exception as e:  # noqa
+            if impl_frame(e) is None:
+                raise
+            res.fail("restart_" + raises_kind(e), {"message": str(e)[:300], "argv": argv}, bucket=_frame_cls(e))
+            return res
+        if errs:
+            res.fail("restart_error", {"logged": [m[:300] for m in errs[:3]], "argv": argv}, bucket="stages")
+            return res
+        if seen.get("stop"):
+            res.labels = tuple(res.labels) + ("stages_stopped_" + seen["stop"],)
+            return res
+        for i, a in enumerate(ids):
+            f, T = st_all[i]["f"], st_all[i]["T"]
+            info = {"stage": i, "of": n, "files": ["stage%d" % k for k in files], "continued_after_epoch": start[i]}
+            if i not in seen or i not in ended:
+                res.fail("not_run", dict(info, what="run() of this stage was not reached / did not finish after the restart"), bucket=algname[st_all[i]["alg"]])
+                break
+            expect = [e for e in range(f, T + 1, f) if e > start[i]]
+            if len(resumed[a]) != len(expect):
+                res.fail("trajectory", dict(info, what="number of checkpoints written by this stage after the restart", expected=len(expect),
+                                            observed=len(resumed[a])), bucket=algname[st_all[i]["alg"]])
+                break
+            bad = False
+            for e, r in list(zip(expect, resumed[a])) + [("end", ended[i])]:
+                ref = snaps[a][e]
+                dd = []
+                compare(ref, r, lambda kind, detail, **t: dd.append({"part": kind, **detail}), restart=False)
+                if ref["epoch"] != r["epoch"]:
+                    dd.append({"part": "iteration", "diffs": [["_epoch", ref["epoch"], r["epoch"]]]})
+                if dd:
+                    res.fail("trajectory", dict(info, first_divergence_at_epoch=e, differences=dd[:3]), bucket=algname[st_all[i]["alg"]])
+                    bad = True
+                    break
+            if bad:
+                break
+        res.labels = tuple(res.labels) + ("stages_compared",)
+        res.nontrivial = len(files) >= 2 and any(nontrivial(dict(st_all[i], N=start[i], T=st_all[i]["T"] + (1 if i < j else 0)), i == j) for i in files)
     return res
 
 
@@ -1263,6 +1512,28 @@ def mcmc_cases(draw, continue_=False, adaptors="draw", need_hmc=False, mass=None
     return c
 
 
+@st.composite
+def staged_cases(draw):
+    """2-3 algorithms (Optimizer and / or MCMC) in one configuration, each with its own parameters, checkpoint file and
+    checkpoint frequency; the run dies in stage j at a checkpoint; restart with a drawn subset and order of -c files"""
+    n = draw(st.integers(2, 3))
+    stages = []
+    for i in range(n):
+        cs = draw(st.one_of(opt_cases(True), mcmc_cases(True)))
+        if cs["alg"] == "mcmc":
+            # one tree per configuration would need unique taxon names: the GMRF block operator stays in the single-stage sub-checks
+            cs["ops"] = [o for o in cs["ops"] if o["type"] != "gmrf"][:3] or [{"type": "slide", "weight": 1.0, "disable": False, "awl": 3, "values": [0.1], "tuning": 0.5}]
+            cs["ckname"] = "stage%d.json" % i
+        else:
+            cs["ckname"] = "stage%d.json" % i
+        stages.append(cs)
+    j = draw(st.integers(0, n - 1)) if draw(st.integers(0, 3)) == 0 else draw(st.integers(1, n - 1))
+    perm = list(draw(st.permutations(list(range(j + 1)))))
+    k = draw(st.sampled_from([j + 1, j + 1, j + 1, draw(st.integers(1, j + 1))]))
+    return {"alg": "stages", "torch_seed": stages[0]["torch_seed"], "argv_dtype": stages[0].get("argv_dtype"), "stages": stages, "j": j,
+            "files": perm[:k], "link": draw(st.booleans())}
+
+
 def cases_roundtrip():
     return st.one_of(opt_cases(False), mcmc_cases(False))
 
@@ -1312,7 +1583,36 @@ def grid(tier):
             out.append({"alg": "mcmc", "torch_seed": 11, "argv_dtype": None, "dtype": None, "ckname": None, "logger": False, "every": 0,
                         "ops": [{"type": "hmc", "weight": 1.0, "disable": False, "values": [[0.3, -0.4], [0.2]], "steps": 2, "step_size": 0.2,
                                  "mass": mass, "adaptors": [dict(a), {"type": "adaptive", "use_rate": False}]}], "N": N, "f": f, "T": T})
+    # several algorithms in one configuration, each with its own checkpoint file; every order of the -c options
+    def P(**k):
+        return dict({"a": 0.5, "b": 1.0, "dtype": None, "form": "tensor", "kind": "real", "nn": False, "values": [0.3]}, **k)
+
+    def O(name, options, N, f, T, i, **k):
+        return dict({"alg": "opt", "torch_seed": 5, "argv_dtype": None, "optim": {"name": name, "options": options}, "sched": None, "target": "joint",
+                     "params": [P()], "couple": False, "pstyle": "ids", "maximize_in": "data", "ckname": "stage%d.json" % i, "ckall": False,
+                     "N": N, "f": f, "T": T}, **k)
+
+    def M(N, f, T, i):
+        return {"alg": "mcmc", "torch_seed": 5, "argv_dtype": None, "dtype": None, "ckname": "stage%d.json" % i, "logger": False, "every": 0,
+                "ops": [{"type": "slide", "weight": 1.0, "disable": False, "awl": 3, "values": [0.2], "tuning": 0.5},
+                        {"type": "hmc", "weight": 1.0, "disable": False, "values": [[0.3, -0.4]], "steps": 2, "step_size": 0.2, "mass": "diag",
+                         "adaptors": [{"type": "dual"}, {"type": "mass", "freq": 2, "regularize": True}]}], "N": N, "f": f, "T": T}
+
+    combos = [[O("Adam", {"lr": 0.1}, 6, 6, 6, 0), O("Adam", {"lr": 0.1}, 3, 1, 8, 1, ckall=True)],
+              [O("Adam", {"lr": 0.1}, 4, 2, 5, 0, sched={"name": "StepLR", "args": {"step_size": 2, "gamma": 0.5}}), M(8, 4, 14, 1)],
+              [M(6, 3, 12, 0), O("RMSprop", {"lr": 0.01, "momentum": 0.9}, 2, 2, 6, 1), O("SGD", {"lr": 0.05, "momentum": 0.9}, 3, 1, 5, 2)]]
+    import itertools
+
+    for stages in combos:
+        j = len(stages) - 1
+        for files in itertools.permutations(range(j + 1)):
+            for link in (False, True):
+                out.append({"alg": "stages", "torch_seed": 5, "argv_dtype": None, "stages": stages, "j": j, "files": list(files), "link": link})
     return out
+
+
+def body_any(c):
+    return body_stages(c) if c["alg"] == "stages" else body_trajectory(c)
 
 
 # =========================================================================== self test of the comparison
@@ -1336,5 +1636,6 @@ def subchecks(tier):
     return [
         Sub("roundtrip", body_roundtrip, strategy=cases_roundtrip, quick=1200, thorough=16000),
         Sub("trajectory", body_trajectory, strategy=cases_trajectory, quick=800, thorough=12000),
-        Sub("grid", body_trajectory, enumerate=grid, exhaustive=True),
+        Sub("stages", body_stages, strategy=staged_cases, quick=320, thorough=5000),
+        Sub("grid", body_any, enumerate=grid, exhaustive=True),
     ]
